@@ -502,7 +502,12 @@ func metaDeviations(c *explore.Ctx, f *sfnt.Font, spec *FontSpec, kind int) {
 	dev(c, spec, "CodePageRange", &f.CodePageRange, os2.CodePageRange(1), os2.CodePageRange(1)<<63, os2.CodePageRange(1)<<31|1<<32, ^os2.CodePageRange(0))
 	dev(c, spec, "Version", &f.Version, 0, 0x00018000, 0x00020000+0x4189 /* 2.256 */, 0x7FFF0000)
 	dev(c, spec, "CreationTime", &f.CreationTime, time.Time{}, time.Date(1904, 1, 1, 0, 0, 1, 0, time.UTC), time.Date(1970, 1, 1, 0, 0, 0, 0, time.UTC), time.Date(2040, 2, 29, 23, 59, 59, 0, time.UTC))
-	dev(c, spec, "ModificationTime", &f.ModificationTime, time.Date(1999, 12, 31, 23, 59, 59, 0, time.UTC), time.Date(2106, 2, 7, 6, 28, 16, 0, time.UTC))
+	if f.CreationTime.IsZero() {
+		dev(c, spec, "ModificationTime", &f.ModificationTime, time.Date(1999, 12, 31, 23, 59, 59, 0, time.UTC), time.Date(2106, 2, 7, 6, 28, 16, 0, time.UTC))
+	} else {
+		// a font that only records when it was created (at least one of the two is always set)
+		dev(c, spec, "ModificationTime", &f.ModificationTime, time.Date(1999, 12, 31, 23, 59, 59, 0, time.UTC), time.Date(2106, 2, 7, 6, 28, 16, 0, time.UTC), time.Time{})
+	}
 	dev(c, spec, "Description", &f.Description, "descr", "Ünï €", "x𝔘")
 	dev(c, spec, "SampleText", &f.SampleText, "The quick brown fox", "ÄÖÜ")
 	dev(c, spec, "Copyright", &f.Copyright, "(c) 2021 Somebody", "© 2021 Sömebody")
